@@ -44,8 +44,12 @@ def load_known_findings():
     return out
 
 
+LAST_NATIVE_PAYLOAD = {}
+
+
 def run_native(module, fn, payload, timeout=600):
     """Run a replay function natively (real AEIC package) in a subprocess of the overlay venv."""
+    LAST_NATIVE_PAYLOAD[(module, fn)] = payload
     env = dict(os.environ)
     src = os.environ.get('AEIC_SRC', '/repo/src')
     env['PYTHONPATH'] = f'{src}:{VERIF}'
@@ -192,7 +196,10 @@ def main(argv=None):
         exit_code = 1
         if r is None:      # bounded stand-in violation (already a native failing input)
             ob = cname
-            payload = dict(property=prop, obligation=ob, kind='bounded stand-in', model=c.get('input'),
+            rf = c.get('replay_fn') or ''
+            # replaying = running the same bounded family again with the same seed and bound (the failing case is kept as text)
+            payload = dict(property=prop, obligation=ob, kind='bounded stand-in', failing_input=c.get('input'),
+                           model=LAST_NATIVE_PAYLOAD.get(tuple(rf.split(':')), c.get('input')) if ':' in rf else c.get('input'),
                            observed=c.get('observed'), replay_fn=c.get('replay_fn'))
             path = replay_dir / (_safe(ob) + '-' + _h(payload) + '.json')
             path.write_text(json.dumps(payload, indent=1, default=str))
